@@ -265,4 +265,9 @@ theorem isDupAssert_iff (cs : List Call) : isDupAssert cs = true ↔
     refine ⟨k, hk, decide_eq_true hlen, ?_⟩
     rw [hc]; exact hl
 
+/-! ### non-vacuity: concrete test methods meet `isJunitTest m = true`, the hypothesis of the exactness theorems -/
+example : isJunitTest oneCallTest = true := by decide
+example : isJunitTest { name := "t", annos := [{ name := "Ignore" }, { name := "Test" }] } = true := by decide
+example : isJunitTest { name := "helper", annos := [{ name := "Before" }] } = false := by decide
+
 end CocaVerif.Props.C11
